@@ -22,6 +22,9 @@ U32 = (1 << 32) - 1
 def lanes(qc, layout, pattern, rng, i=0):
     """one element of the given layout"""
     q = qc.q
+    if pattern == "lane" and layout in ("a", "b"):      # one lane at its maximum, the three others exactly zero (the lane moves with i)
+        top = U32 if layout == "a" else U64
+        return [top if k == i % 4 else 0 for k in range(4)]
     if layout == "a":
         if pattern == "max":
             return [U32] * 4
@@ -65,11 +68,12 @@ def drive_products(rec, part, ells, reps):
     for ell in ells:
         for (kind, lx, ly) in kinds:
             for rep in range(reps):
-                pattern = ["random", "max", "alt", "near", "noncanon"][(rep + part) % 5]
+                pattern = ["random", "max", "alt", "near", "noncanon", "lane"][(rep + part) % 6]
                 xe = 2 if kind.startswith("x2") else 1
                 ye = {"x2c1": 2, "x2c2": 4}.get(kind, 1)
                 xs = [lanes(qc, lx, pattern if pattern != "noncanon" else "random", rng, i) for i in range(ell * xe)]
-                ys = [lanes(qc, ly, pattern if ly == "c" or pattern != "noncanon" else "random", rng, i) for i in range(ell * ye)]
+                ys = [lanes(qc, ly, (pattern if pattern != "lane" else "random") if ly == "c" or pattern != "noncanon" else "random", rng, i)
+                      for i in range(ell * ye)]
                 results = {}
                 for impl in ("ref", "avx2"):
                     label = "q120 product %s_%s ell=%d pattern=%s" % (kind, impl, ell, pattern)
@@ -270,7 +274,7 @@ def run(chk, replay=None):
     chk.assumptions += ["lanes are reduced modulo each prime by the harness (Python %); TLC performs the modular algebra",
                         "a-layout operands are 32-bit values, c-layout operands are consistent (v, v*2^32) pairs, possibly unreduced"]
     ells = [0, 1, 2, 3, 7, 64, 1000] if quick else [0, 1, 2, 3, 7, 64, 1000, 4000, 10000]
-    jobs = [("q120 products part %d" % i, drive_products, (i, ells[i::4], 2 if quick else 5)) for i in range(4)]
+    jobs = [("q120 products part %d" % i, drive_products, (i, ells[i::4], 3 if quick else 6)) for i in range(4)]
     jobs.append(("q120 conversions and block maps", drive_conversions, (40 if quick else 400,)))
     res = isolated_many(chk, jobs, timeout=1800, nproc=5)
     events = [ev for d in res if d for ev in d["events"]]
